@@ -608,9 +608,12 @@ def _genkill(obs):
     return frozenset(gen), frozenset(kill)
 
 
-def _shard_worker(wid, n, mach, monitor, inboxes, resultq, sent, recv, idle, stop, max_states):
+def _shard_worker(wid, n, mach, monitor, inboxes, resultq, sent, recv, idle, stop, max_states, abort):
     import queue as _q
     import traceback
+    import os as _os
+    for _qq in inboxes:
+        _qq.cancel_join_thread()
     try:
         seen = {}
         parent = {}
@@ -719,6 +722,8 @@ def _shard_worker(wid, n, mach, monitor, inboxes, resultq, sent, recv, idle, sto
                             s2 = s2()
                         outbox[owner].append((ck, s2, m2, ev2, obs2, nid, label, gk))
             flush(False)
+        if abort.value:
+            _os._exit(0)
         resultq.put(('ok', wid, {'nstates': len(seen), 'parent': parent, 'finals': finals, 'findings': findings, 'edges': edges,
                                   'obs': obsd, 'stats': stats, 'seen': dict((k[0][:-1], v) for k, v in seen.items()) if opt else None}))
     except NeedSplit as ns:
@@ -749,16 +754,32 @@ def _explore_sharded(mach, entry, setup, monitor, max_states, nworkers):
     recv = ctxmp.Array('l', n)
     idle = ctxmp.Array('b', n, lock=False)
     stop = ctxmp.Event()
+    abort = ctxmp.Value('b', 0)
     owner = hash((k0, m0)) % n
     inboxes[owner].put([(k0, st0, m0, ev0, obs0, None, None, (frozenset(), frozenset()))])
     sent[owner] += 1
-    procs = [ctxmp.Process(target=_shard_worker, args=(i, n, mach, monitor, inboxes, resultq, sent, recv, idle, stop, max_states))
+    procs = [ctxmp.Process(target=_shard_worker, args=(i, n, mach, monitor, inboxes, resultq, sent, recv, idle, stop, max_states, abort))
              for i in range(n)]
     for p in procs:
         p.start()
+    try:
+        return _shard_collect(mach, n, procs, inboxes, resultq, sent, recv, idle, stop, abort)
+    finally:
+        abort.value = 1
+        stop.set()
+        for p in procs:
+            if p.is_alive():
+                p.kill()
+        for p in procs:
+            p.join(timeout=10)
+
+
+def _shard_collect(mach, n, procs, inboxes, resultq, sent, recv, idle, stop, abort):
+    import queue as _q
     pieces = {}
     err = None
     quiet = 0
+    last_counts, last_change = None, time.time()
     while len(pieces) < n and err is None:
         try:
             kind, wid, payload = resultq.get(timeout=0.05)
@@ -766,10 +787,19 @@ def _explore_sharded(mach, entry, setup, monitor, max_states, nworkers):
                 pieces[wid] = payload
             else:
                 err = (kind, payload)
+                abort.value = 1
                 stop.set()
             continue
         except _q.Empty:
             pass
+        counts = (sum(sent[:]), sum(recv[:]), len(pieces))
+        if counts != last_counts:
+            last_counts, last_change = counts, time.time()
+        elif time.time() - last_change > 600 and err is None:
+            err = ('error', ('internal', 'no progress for 600 s (sent %d, received %d, idle %s, results %d/%d)'
+                             % (counts[0], counts[1], [int(idle[i]) for i in range(n)], len(pieces), n)))
+            abort.value = 1
+            stop.set()
         if not stop.is_set():
             if all(idle[i] for i in range(n)) and sum(sent[:]) == sum(recv[:]):
                 quiet += 1
@@ -781,11 +811,17 @@ def _explore_sharded(mach, entry, setup, monitor, max_states, nworkers):
             dead = [i for i, p in enumerate(procs) if not p.is_alive() and i not in pieces]
             if dead:
                 err = ('error', ('internal', 'worker %s died, exit codes %s' % (dead, [procs[i].exitcode for i in dead])))
+                abort.value = 1
                 stop.set()
+    if err is not None:
+        for p in procs:
+            if p.is_alive():
+                p.kill()
     for p in procs:
-        p.join(timeout=5)
+        p.join(timeout=10)
         if p.is_alive():
-            p.terminate()
+            p.kill()
+            p.join(timeout=5)
     if err is not None:
         kind, payload = err
         if kind == 'needsplit':
